@@ -194,21 +194,32 @@ ChargedAfter(i) ==
 QGpu(q, i, np) == Sum({p \in ChargedAfter(i) : InSubtree(p, q) /\ (np => J(JobOf(p)).preempt = 0)}, GpuMilli)
 QCpu(q, i, np) == Sum({p \in ChargedAfter(i) : InSubtree(p, q) /\ (np => J(JobOf(p)).preempt = 0)}, EffCpu)
 QMem(q, i, np) == Sum({p \in ChargedAfter(i) : InSubtree(p, q) /\ (np => J(JobOf(p)).preempt = 0)}, LAMBDA p : P(p).mem)
+\* C08 judges DECISIONS: a statement is decided as a whole (victims + placements). When the API call
+\* evicting one of its victims fails, Commit undoes that eviction and still emits the placements that
+\* follow; the sums a placement is judged against therefore count the victims of ITS OWN statement as
+\* evicted whether or not their API call succeeded (failed evictions of other statements stay charged).
+EvictDecidedIn(x, s) == D[x].k = "evict" /\ s # 0 /\ D[x].stmt = s
+LastRelIn(p, i) == LET xs == {x \in 1..i : D[x].p = p /\ (Relevant(x) \/ EvictDecidedIn(x, D[i].stmt))} IN IF xs = {} THEN 0 ELSE Max(xs)
+ChargedDecided(i) ==
+  {p \in Pods : LET x == LastRelIn(p, i) IN IF x = 0 THEN ActiveAtStart(p) ELSE D[x].k # "evict"}
+DGpu(q, i, np) == Sum({p \in ChargedDecided(i) : InSubtree(p, q) /\ (np => J(JobOf(p)).preempt = 0)}, GpuMilli)
+DCpu(q, i, np) == Sum({p \in ChargedDecided(i) : InSubtree(p, q) /\ (np => J(JobOf(p)).preempt = 0)}, EffCpu)
+DMem(q, i, np) == Sum({p \in ChargedDecided(i) : InSubtree(p, q) /\ (np => J(JobOf(p)).preempt = 0)}, LAMBDA p : P(p).mem)
 Raises(i) == (BindOK(i) \/ Piped(i)) /\ D[i].p \notin ChargedAfter(i - 1)
 \* only the newest decision needs checking in each state (earlier ones were checked in earlier states)
 LastD == Len(D)
 C08_Limit ==
   (LastD > 0 /\ Raises(LastD)) =>
     \A q \in Ancestors(J(JobOf(D[LastD].p)).queue) :
-      /\ (Q(q).gl # -1 /\ GpuMilli(D[LastD].p) > 0) => QGpu(q, LastD, FALSE) <= Q(q).gl
-      /\ (Q(q).cl # -1 /\ EffCpu(D[LastD].p) > 0)   => QCpu(q, LastD, FALSE) <= Q(q).cl
-      /\ (Q(q).ml # -1 /\ P(D[LastD].p).mem > 0)   => QMem(q, LastD, FALSE) <= Q(q).ml
+      /\ (Q(q).gl # -1 /\ GpuMilli(D[LastD].p) > 0) => DGpu(q, LastD, FALSE) <= Q(q).gl
+      /\ (Q(q).cl # -1 /\ EffCpu(D[LastD].p) > 0)   => DCpu(q, LastD, FALSE) <= Q(q).cl
+      /\ (Q(q).ml # -1 /\ P(D[LastD].p).mem > 0)   => DMem(q, LastD, FALSE) <= Q(q).ml
 C08_NonPreemptibleQuota ==
   (LastD > 0 /\ Raises(LastD) /\ J(JobOf(D[LastD].p)).preempt = 0) =>
     \A q \in Ancestors(J(JobOf(D[LastD].p)).queue) :
-      /\ (Q(q).gq # -1 /\ GpuMilli(D[LastD].p) > 0) => QGpu(q, LastD, TRUE) <= Q(q).gq
-      /\ (Q(q).cq # -1 /\ EffCpu(D[LastD].p) > 0)   => QCpu(q, LastD, TRUE) <= Q(q).cq
-      /\ (Q(q).mq # -1 /\ P(D[LastD].p).mem > 0)   => QMem(q, LastD, TRUE) <= Q(q).mq
+      /\ (Q(q).gq # -1 /\ GpuMilli(D[LastD].p) > 0) => DGpu(q, LastD, TRUE) <= Q(q).gq
+      /\ (Q(q).cq # -1 /\ EffCpu(D[LastD].p) > 0)   => DCpu(q, LastD, TRUE) <= Q(q).cq
+      /\ (Q(q).mq # -1 /\ P(D[LastD].p).mem > 0)   => DMem(q, LastD, TRUE) <= Q(q).mq
 
 (***************************************************************************)
 (* C16 - priority, then FIFO, between comparable jobs of a leaf queue,     *)
@@ -509,14 +520,27 @@ C04_PodAntiAffinity ==
       /\ \A x \in Pods \ {p} : \A t \in 1..Len(P(x).podAnt) :
             (WhereAt(x, i) # 0 /\ SameDomain(WhereAt(x, i), n, P(x).podAnt[t].topo))
               => ~PodHasLabel(p, P(x).podAnt[t].key, P(x).podAnt[t].val)
+\* A required affinity term is satisfied by a pod with the label in the domain, or (upstream rule) by
+\* the pod itself when it is the first of a self-affine set.
+AffinityOK(i, present(_, _)) ==
+  LET p == D[i].p  n == D[i].n IN
+    \A t \in 1..Len(P(p).podAff) :
+       \/ \E x \in Pods \ {p} : present(x, P(p).podAff[t].topo) /\ PodHasLabel(x, P(p).podAff[t].key, P(p).podAff[t].val)
+       \/ /\ PodHasLabel(p, P(p).podAff[t].key, P(p).podAff[t].val)
+          /\ ~\E x \in Pods \ {p} : WhereAtAll(x, i) # 0 /\ PodHasLabel(x, P(p).podAff[t].key, P(p).podAff[t].val)
+\* every node x occupied at some moment of the cycle before decision i
+EverAt(x, i) == (IF S[x].st \in OccSt THEN {S[x].node} ELSE {}) \cup {D[k].n : k \in PlacedBefore(x, i)}
+\* lenient reading (the verdict): a pod counts wherever it was during the cycle, also after the
+\* scheduler evicted it or moved it away - like a terminating pod for the upstream filter
 C04_PodAffinity ==
   \A i \in Dec : IsPlacement(i) =>
-    LET p == D[i].p  n == D[i].n IN
-      \A t \in 1..Len(P(p).podAff) :
-         \/ \E x \in OthersAll(p, i, n, P(p).podAff[t].topo) : PodHasLabel(x, P(p).podAff[t].key, P(p).podAff[t].val)
-         \* the first pod of a self-affine set may start a domain (upstream InterPodAffinity rule)
-         \/ /\ PodHasLabel(p, P(p).podAff[t].key, P(p).podAff[t].val)
-            /\ ~\E x \in Pods \ {p} : WhereAtAll(x, i) # 0 /\ PodHasLabel(x, P(p).podAff[t].key, P(p).podAff[t].val)
+     AffinityOK(i, LAMBDA x, topo : \E m \in EverAt(x, i) : SameDomain(m, D[i].n, topo))
+\* strict reading: a pod counts where it is now (start node or newest placement). Fails beyond the
+\* lenient one exactly when the only pods satisfying the term were moved away earlier in the cycle -
+\* typically by the very statement that nominates the pod (see known findings)
+C04_PodAffinityMovedAway ==
+  \A i \in Dec : IsPlacement(i) =>
+     AffinityOK(i, LAMBDA x, topo : WhereAtAll(x, i) # 0 /\ SameDomain(WhereAtAll(x, i), D[i].n, topo))
 
 (***************************************************************************)
 (* C04 - topology constraints (scenario topology = label keys, coarsest     *)
